@@ -235,6 +235,16 @@ static void dump_tables() {
   ROWS(fSimdVVV) BEGIN(fSimdVVV) kv(s, "scalar_op", d.scalar_op()); kv(s, "scalar_hf", d.scalar_hf()); kv(s, "vector_op", d.vector_op()); kv(s, "vector_hf", d.vector_hf()); END
   ROWS(fSimdVVVV) BEGIN(fSimdVVVV) kv(s, "scalar_op", d.scalar_op()); kv(s, "scalar_hf", d.scalar_hf()); kv(s, "vector_op", d.vector_op()); kv(s, "vector_hf", d.vector_hf()); END
   ROWS(iSimdVVVV) BEGIN(iSimdVVVV) kv(s, "opcode", d.opcode); kv(s, "vec_op_type", d.vec_op_type); END
+  ROWS(fSimdSV) BEGIN(fSimdSV) kv(s, "opcode", d.opcode); END
+  ROWS(iSimdSV) BEGIN(iSimdSV) kv(s, "opcode", d.opcode()); kv(s, "vec_op_type", d.vec_op_type); END
+  ROWS(iSimdWWV) BEGIN(iSimdWWV) kv(s, "opcode", d.opcode()); kv(s, "vec_op_type", d.vec_op_type); END
+  ROWS(iSimdVVVI) BEGIN(iSimdVVVI) kv(s, "opcode", d.opcode()); kv(s, "vec_op_type", d.vec_op_type); kv(s, "imm_size", d.imm_size); kv(s, "imm_shift", d.imm_shift);
+    kv(s, "imm64_has_one_bit_less", d.imm64_has_one_bit_less); END
+  ROWS(simdCmp) BEGIN(simdCmp) kv(s, "register_op", d.register_op); kv(s, "zero_op", d.zero_op); kv(s, "vec_op_type", d.vec_op_type); END
+  ROWS(simdSxtlUxtl) BEGIN(simdSxtlUxtl) kv(s, "opcode", d.opcode); kv(s, "vec_op_type", d.vec_op_type); END
+  ROWS(simdShiftES) BEGIN(simdShiftES) kv(s, "opcode", d.opcode); kv(s, "vec_op_type", d.vec_op_type); END
+  ROWS(simdFcmpFcmpe) BEGIN(simdFcmpFcmpe) kv(s, "opcode", d.opcode()); END
+  ROWS(simdFccmpFccmpe) BEGIN(simdFccmpFccmpe) kv(s, "opcode", d.opcode()); END
   // file-static tables of a64assembler.cpp
   for (size_t i = 0; i < sizeof(a64::shift_op_to_ld_st_opt_map); i++) printf("row shiftOpToLdStOptMap %zu value=%u\n", i, a64::shift_op_to_ld_st_opt_map[i]);
   for (size_t t = 0; t < a64::SizeOpTable::kCount; t++)
